@@ -88,6 +88,17 @@ Example C34_s5_repaired :
   exists s, run c (init c 0%Z) s5_schedule = Some s /\ live s 0 = false /\ owns s 0 = 2.
 Proof. cbv zeta. eexists. vm_compute. repeat split; reflexivity. Qed.
 
+(** both kinds of exit count ([a_exiting] covers monitors that left with ErrNotLocked as well as those that go on to
+    their delete script): key 0 is deleted by somebody else and its monitor learns it (extension answered 0), then
+    the extension of key 1 fails — the context is done before the delete script of key 1 *)
+Example C34_two_step_cancel_first :
+  let c := {| c_m := 2; c_early := true |} in
+  exists s s', run c (init c 0%Z)
+                 [LStart false; LAcquire 0 100%Z true true; LAcquire 0 100%Z true true; LReturn 0; LAcquire 0 100%Z true true;
+                  LEnvDel 0; LExtend 0 0 200%Z true true] = Some s /\ live s 0 = true /\
+               lstep c s (LExtend 0 1 200%Z false true) = Some s' /\ live s' 0 = false /\ owns s' 0 = 2.
+Proof. cbv zeta. eexists; eexists. vm_compute. repeat split; reflexivity. Qed.
+
 (** the window that remains in the repaired order: [try] returned with keys 0 and 1, key 2 not yet attempted,
     the extension of key 0 fails and its monitor releases it: live with one key of three *)
 Theorem C34_release_during_acquisition_witness :
